@@ -26,6 +26,15 @@ type anchorFP struct {
 	Callees []string `json:"callees"`
 }
 
+type structFP struct {
+	Rel    string      `json:"pkg"`
+	Name   string      `json:"name"`
+	Fields [][2]string `json:"fields"` // name, type
+}
+
+// fieldAlias maps "pkgpath.Type.currentField" to the reference field name.
+var fieldAlias = map[string]string{}
+
 // qnameAlias maps the qualified name of a renamed function to the name the rules know it by.
 var qnameAlias = map[string]string{}
 
@@ -125,7 +134,29 @@ func writeAnchors(c *Ctx, path string) error {
 		}
 		return all[i].Name < all[j].Name
 	})
-	b, err := json.MarshalIndent(map[string]interface{}{"reference": "unexported functions of the tree the rule slots were confirmed on", "functions": all}, "", " ")
+	var structs []structFP
+	for _, rel := range c.modulePkgs() {
+		sp := c.SSA[modPath+"/"+rel]
+		var names []string
+		for n, m := range sp.Members {
+			if _, ok := m.(*ssa.Type); ok {
+				names = append(names, n)
+			}
+		}
+		sort.Strings(names)
+		for _, n := range names {
+			st, ok := sp.Members[n].(*ssa.Type).Type().Underlying().(*types.Struct)
+			if !ok {
+				continue
+			}
+			fp := structFP{Rel: rel, Name: n}
+			for i := 0; i < st.NumFields(); i++ {
+				fp.Fields = append(fp.Fields, [2]string{st.Field(i).Name(), types.TypeString(st.Field(i).Type(), func(p *types.Package) string { return p.Path() })})
+			}
+			structs = append(structs, fp)
+		}
+	}
+	b, err := json.MarshalIndent(map[string]interface{}{"reference": "unexported functions and struct fields of the tree the rule slots were confirmed on", "functions": all, "structs": structs}, "", " ")
 	if err != nil {
 		return err
 	}
@@ -141,9 +172,71 @@ func (c *Ctx) resolveRenames(path string) {
 	}
 	var doc struct {
 		Functions []anchorFP `json:"functions"`
+		Structs   []structFP `json:"structs"`
 	}
 	if json.Unmarshal(b, &doc) != nil {
 		return
+	}
+	// renamed unexported struct fields: a reference field that is gone and exactly one new field of the same type
+	for _, sfp := range doc.Structs {
+		sp := c.SSA[modPath+"/"+sfp.Rel]
+		if sp == nil {
+			continue
+		}
+		tm, ok := sp.Members[sfp.Name].(*ssa.Type)
+		if !ok {
+			continue
+		}
+		st, ok := tm.Type().Underlying().(*types.Struct)
+		if !ok {
+			continue
+		}
+		ref := map[string]string{}
+		for _, f := range sfp.Fields {
+			ref[f[0]] = f[1]
+		}
+		cur := map[string]string{}
+		for i := 0; i < st.NumFields(); i++ {
+			cur[st.Field(i).Name()] = types.TypeString(st.Field(i).Type(), func(p *types.Package) string { return p.Path() })
+		}
+		for name, typ := range ref {
+			if _, still := cur[name]; still || !unexported(name) {
+				continue
+			}
+			var cands []string
+			for cn, ct := range cur {
+				if _, known := ref[cn]; !known && ct == typ {
+					cands = append(cands, cn)
+				}
+			}
+			// several fields of one type renamed at once: pair them by declaration order
+			if len(cands) > 1 {
+				var goneSame []string
+				for _, f := range sfp.Fields {
+					if _, still := cur[f[0]]; !still && f[1] == typ {
+						goneSame = append(goneSame, f[0])
+					}
+				}
+				var freshSame []string
+				for i := 0; i < st.NumFields(); i++ {
+					fn := st.Field(i).Name()
+					if _, known := ref[fn]; !known && cur[fn] == typ {
+						freshSame = append(freshSame, fn)
+					}
+				}
+				if len(goneSame) == len(freshSame) {
+					for i, g := range goneSame {
+						if g == name {
+							cands = []string{freshSame[i]}
+						}
+					}
+				}
+			}
+			if len(cands) == 1 {
+				fieldAlias[modPath+"/"+sfp.Rel+"."+sfp.Name+"."+cands[0]] = name
+				c.RenameNotes = append(c.RenameNotes, "field "+sfp.Rel+"."+sfp.Name+"."+name+" resolved to renamed field "+cands[0])
+			}
+		}
 	}
 	known := map[string]bool{}
 	byPkg := map[string][]anchorFP{}
